@@ -59,6 +59,10 @@ type c16Item struct {
 	Data    bool   `json:"data_predicate,omitempty"`
 	Kind    string `json:"kind,omitempty"`  // log: match | wrong-topic | wrong-address | low-data
 	First   bool   `json:"first,omitempty"` // log: emitted before the registrations of its block
+	// reg: eon the trigger is registered for (0 = 1), and the trigger whose identity
+	// prefix and sender it shares (0 = its own): the same identity registered for two eons
+	Eon     int `json:"eon,omitempty"`
+	IdentOf int `json:"identity_of_trigger,omitempty"`
 }
 
 type c16Spec struct {
@@ -114,7 +118,14 @@ type c16World struct {
 	env   *syncx.Env
 }
 
-func c16TriggerEvent(n int, data bool, expiry uint64) *syncx.Event {
+func c16TriggerEvent(n int, data bool, expiry uint64, eon, identOf int) *syncx.Event {
+	if eon == 0 {
+		eon = 1
+	}
+	name := fmt.Sprintf("trigger%d", n)
+	if identOf != 0 {
+		n = identOf
+	}
 	def := syncx.TriggerDefinition(syncx.TargetAddr, c16Sig, nil)
 	if data {
 		// topic 0 == Ping, first data word >= 100, and topic 3 == 0 as an integer: the
@@ -129,7 +140,7 @@ func c16TriggerEvent(n int, data bool, expiry uint64) *syncx.Event {
 		def = d.MarshalBytes()
 	}
 	return &syncx.Event{
-		Kind: syncx.Multi, Name: fmt.Sprintf("trigger%d", n), Eon: 1,
+		Kind: syncx.Multi, Name: name, Eon: uint64(eon),
 		Prefix: [32]byte{0xC0, byte(n)}, Sender: common.BytesToAddress([]byte{0x5e, byte(n)}),
 		Definition: def, DefinitionValid: true, Expiration: expiry,
 	}
@@ -185,8 +196,8 @@ func newC16World(spec c16Spec, maxRange uint64) *c16World {
 		for i, it := range order {
 			if it.Type == "reg" {
 				t := &c16Trig{n: it.Trigger, data: it.Data, r: uint64(h), e: uint64(h + it.TTL), logIdx: i}
-				t.ev = c16TriggerEvent(it.Trigger, it.Data, t.e)
-				t.ident = "0x" + common.Bytes2Hex(t.ev.Identity())
+				t.ev = c16TriggerEvent(it.Trigger, it.Data, t.e, it.Eon, it.IdentOf)
+				t.ident = fmt.Sprintf("eon %d, 0x%s", t.ev.Eon, common.Bytes2Hex(t.ev.Identity()))
 				logs = append(logs, t.ev.Log())
 				trigs = append(trigs, t)
 			} else {
@@ -313,7 +324,8 @@ func (w *c16World) judge(hist c16Hist) (*finding, string) {
 	rows := syncx.ReadRows(d, "fired_triggers")
 	fired := map[string][]syncx.Row{}
 	for _, r := range rows {
-		fired[r["identity"]] = append(fired[r["identity"]], r)
+		k := "eon " + r["eon"] + ", " + r["identity"]
+		fired[k] = append(fired[k], r)
 	}
 	var sigs, lines []string
 	add := func(sig, line string) {
@@ -503,6 +515,9 @@ func c16Chains(thorough bool) []c16Spec {
 				if it.Data {
 					s += "d"
 				}
+				if it.Eon != 0 {
+					s += fmt.Sprintf("(eon %d, identity of %d)", it.Eon, it.IdentOf)
+				}
 				p = append(p, s)
 			} else {
 				s := fmt.Sprintf("%s@%s%d", it.Kind, map[string]string{"trunk": "", "fork": "f"}[it.Side], it.Height)
@@ -564,6 +579,21 @@ func c16Chains(thorough bool) []c16Spec {
 						if thorough || (r1+r2+b)%3 == 0 {
 							emit(reg(1, r1, t1, false), reg(2, r2, t2, true), lg(b, "low-data", false))
 						}
+					}
+				}
+			}
+		}
+	}
+	// the same identity (prefix, sender, definition) registered for two eons, in
+	// either order of the eons: two triggers, each fires on its own
+	for r1 := 1; r1 <= L; r1++ {
+		for r2 := r1; r2 <= L; r2++ {
+			for _, t1 := range ttl2 {
+				for b := r1 + 1; b <= L; b++ {
+					for _, first := range []int{1, 2} {
+						a, c := reg(1, r1, t1, false), reg(2, r2, L, false)
+						a.Eon, c.Eon, c.IdentOf = first, 3-first, 1
+						emit(a, c, lg(b, "match", false))
 					}
 				}
 			}
